@@ -8,6 +8,8 @@ namespace Driver.P08
 `den`:  the run input of `Driver/Run.lean` (`parseInput`) + `"n"` + `"runs": [{"trace","exit","complete"}…]`.
         Answers the denotation (`denF`, `denClosure`, `denExit`), the hypotheses (`nocalc`, `determined`), and for every
         run `monC08Den`; for every run after the first `monC08Pair` against the first (the serial reference).
+        `den_c`, `closure_c`, `exit_c`, `determined_c`, `mon_den_c`: the same for the denotation with dynamic calc_dep
+        edges (`denTabC`, `closureTab`, `determinedOf`, `monDenOf` = `monC08DenC`), meaningful on any graph.
 `job`:  `{"main": {"task": {attr: id}}, "worker": {"task": {attr: id}}}` → the worker's task after `JobTaskPickle` (`workerReceivesPickle`).
 `data`: `{"main": {"task": {attr: id}, "acts": [[out, err]…]}, "worker": {"task": {…}, "acts": [[out, err]…],
         "failure": id|null}}` → what `processResultData` leaves on the main side, and the pickled key set. -/
@@ -100,7 +102,17 @@ def handleDen (j : Json) : Json :=
     | [] => []
     | (tr0, ex0, _) :: rest => rest.map fun (tr, ex, _) => Json.bool (monC08Pair n tr0 tr ex0 ex)
   let reports := runs.map fun (tr, _, _) => mkArr ((List.range n).map fun t => optDenJson (reportOf tr t))
+  -- the denotation with dynamic calc_dep edges (any graph): table, closure, side condition, monitor
+  let tabC := denTabC inp n
+  let clC := closureTab inp tabC (n + 1)
+  let detC := determinedOf inp tabC (n + 1) clC
+  let monsC := runs.map fun (tr, ex, c) => Json.bool (monDenOf tabC clC n tr ex c)
   Json.mkObj [
+    ("den_c", ofStrs ((List.range n).map fun t => denStr (ddTab tabC t))),
+    ("closure_c", ofNats clC),
+    ("exit_c", toJson (exitOfDens (clC.map (ddTab tabC)))),
+    ("determined_c", Json.bool detC),
+    ("mon_den_c", mkArr monsC),
     ("den", ofStrs (dens.map denStr)),
     ("closure", ofNats cl),
     ("exit", toJson (denExit inp n)),
